@@ -1,10 +1,446 @@
 /-
   Helper lemmas about the runner model (used by Props/C03.lean, C10.lean, C13.lean).
+
+  * `runStep_sound` / `runStep_complete`: one iteration of the model loop (never halted) is
+    exactly one `Spec.Step` of the abstract machine (`step_iff_runStep`).
+  * `runLoop_sound` / `runLoop_complete` / `runLoop_fuel_mono`, determinism of `Step`/`Reaches`.
+  * halt-flag lemmas for C13.
 -/
 import DuckModel.Runner
 import DuckModel.Spec.Machine
+import DuckModel.Lemmas.RunnerLabels
+
+set_option linter.unusedSimpArgs false
 
 namespace Duck
 open Duck.Spec
+
+variable {σ : Type}
+
+/-- the configuration of the abstract machine a runner state stands for -/
+def cfgOf (rs : RunState σ) : Cfg σ := ⟨rs.line, rs.vars, rs.st⟩
+
+/-- the result of one `runStep`, as the abstract machine sees it -/
+def outOf : RunState σ ⊕ (RunState σ × RunEnd) → Option (Cfg σ ⊕ Final σ)
+  | .inl rs' => some (.inl (cfgOf rs'))
+  | .inr (rs', e) => (finalOf rs' e).map .inr
+
+theorem runStep_sound (sem : CmdSem σ) (is : List Instruction) (rs : RunState σ)
+    (o : Cfg σ ⊕ Final σ)
+    (h : outOf (runStep sem is (labelTable is) noHalt rs) = some o) :
+    Step sem is (cfgOf rs) o := by
+  unfold runStep at h
+  simp only [noHalt, Bool.false_eq_true, if_false] at h
+  cases hi : is[rs.line]? with
+  | none =>
+    simp only [hi, outOf, finalOf, Option.map_some, Option.some.injEq] at h
+    subst h
+    exact Step.reachedEnd (cfgOf rs) hi
+  | some instr =>
+    simp only [hi] at h
+    obtain ⟨mi, ty⟩ := instr
+    cases ty with
+    | empty =>
+      simp [runInstruction, outOf, cfgOf] at h
+      subst h
+      exact Step.noCommand (cfgOf rs) _ hi rfl
+    | preProcess c a =>
+      simp [runInstruction, outOf, cfgOf] at h
+      subst h
+      exact Step.noCommand (cfgOf rs) _ hi rfl
+    | script si =>
+      obtain ⟨lab, out, cmd, args⟩ := si
+      cases cmd with
+      | none =>
+        simp [runInstruction, outOf, cfgOf] at h
+        subst h
+        exact Step.noCommand (cfgOf rs) _ hi rfl
+      | some c =>
+        cases hsem : sem c (bind rs.vars args) out rs.line rs.vars rs.st with
+        | none =>
+          simp [runInstruction, hsem, outOf, finalOf] at h
+          subst h
+          exact Step.unknownCommand (cfgOf rs) _ c args hi rfl hsem
+        | some res =>
+          obtain ⟨r, vars', st'⟩ := res
+          cases r with
+          | «continue» v =>
+            simp [runInstruction, hsem, outOf, cfgOf] at h
+            subst h
+            exact Step.continue (cfgOf rs) _ c args v vars' st' hi rfl hsem
+          | goTo v g =>
+            cases g with
+            | label l =>
+              cases hl : lookupLabel (labelTable is) l with
+              | none =>
+                simp [runInstruction, hsem, hl, outOf, finalOf] at h
+                subst h
+                exact Step.gotoUnknownLabel (cfgOf rs) _ c args v l vars' st' hi rfl hsem
+                  ((lookup_labelTable_none is l).1 hl)
+              | some k =>
+                simp [runInstruction, hsem, hl, outOf, cfgOf] at h
+                subst h
+                exact Step.gotoLabel (cfgOf rs) _ c args v l k vars' st' hi rfl hsem
+                  ((lookup_labelTable_some is l k).1 hl)
+            | line n => 
+              simp [runInstruction, hsem, outOf, cfgOf] at h
+              subst h
+              exact Step.gotoLine (cfgOf rs) _ c args v n vars' st' hi rfl hsem
+          | error e => 
+            cases hoe : sem onErrorName (errorReport e mi) none 0
+                (Vars.updateOutput vars' out (some "false".toList)) st' with
+            | none =>
+              simp [errorReport] at hoe
+              simp [runInstruction, hsem, runOnError, hoe, outOf, cfgOf] at h
+              subst h
+              exact Step.errorNoHandler (cfgOf rs) _ c args e vars' st' hi rfl hsem hoe
+            | some res' =>
+              obtain ⟨r', vars'', st''⟩ := res'
+              simp [errorReport] at hoe
+              cases r' with
+              | crash m =>
+                simp [runInstruction, hsem, runOnError, hoe, outOf, cfgOf, finalOf] at h
+                subst h
+                exact Step.errorHandlerCrashes (cfgOf rs) _ c args e vars' st' m vars'' st''
+                  hi rfl hsem hoe
+              | exit w =>
+                simp [runInstruction, hsem, runOnError, hoe, outOf, cfgOf, finalOf] at h
+                subst h
+                exact Step.errorHandlerExits (cfgOf rs) _ c args e vars' st' w vars'' st''
+                  hi rfl hsem hoe
+              | _ =>
+                simp [runInstruction, hsem, runOnError, hoe, outOf, cfgOf, finalOf] at h
+                subst h
+                exact Step.errorHandled (cfgOf rs) _ c args e vars' st' _ vars'' st''
+                  hi rfl hsem hoe (by simp) (by simp)
+          | crash e => 
+            simp [runInstruction, hsem, outOf, finalOf] at h
+            subst h
+            exact Step.crash (cfgOf rs) _ c args e vars' st' hi rfl hsem
+          | exit v => 
+            cases hv : v.bind parseI32 with
+            | none =>
+              simp [runInstruction, hsem, hv, outOf, finalOf] at h
+              subst h
+              exact Step.exitOk (cfgOf rs) _ c args v vars' st' hi rfl hsem (by simp [hv])
+            | some code =>
+              by_cases hc : code = 0
+              · simp [runInstruction, hsem, hv, hc, outOf, finalOf] at h
+                subst h
+                exact Step.exitOk (cfgOf rs) _ c args v vars' st' hi rfl hsem (by simp [hv, hc])
+              · simp [runInstruction, hsem, hv, hc, outOf, finalOf] at h
+                subst h
+                exact Step.exitCode (cfgOf rs) _ c args v code vars' st' hi rfl hsem hv hc
+
+theorem runInstruction_noInvocation (sem : CmdSem σ) (vars : Vars) (s : σ) (i : Instruction)
+    (line : Nat) (h : invocationOf i = none) :
+    runInstruction sem vars s i line = (.continue none, outputOf i, vars, s) := by
+  obtain ⟨mi, ty⟩ := i
+  cases ty with
+  | empty => rfl
+  | preProcess _ _ => rfl
+  | script si =>
+    obtain ⟨lab, out, cmd, args⟩ := si
+    cases cmd with
+    | none => rfl
+    | some c => simp [invocationOf] at h
+
+theorem runInstruction_invocation (sem : CmdSem σ) (vars : Vars) (s : σ) (i : Instruction)
+    (line : Nat) (name : Str) (args : Option (List Str)) (h : invocationOf i = some (name, args)) :
+    runInstruction sem vars s i line =
+      match sem name (bind vars args) (outputOf i) line vars s with
+      | none => (.crash ("Command: ".toList ++ name ++ " not found.".toList), outputOf i, vars, s)
+      | some (r, vars', s') => (r, outputOf i, vars', s') := by
+  obtain ⟨mi, ty⟩ := i
+  cases ty with
+  | empty => simp [invocationOf] at h
+  | preProcess _ _ => simp [invocationOf] at h
+  | script si =>
+    obtain ⟨lab, out, cmd, args'⟩ := si
+    cases cmd with
+    | none => simp [invocationOf] at h
+    | some c =>
+      simp [invocationOf] at h
+      obtain ⟨rfl, rfl⟩ := h
+      rfl
+
+theorem runStep_complete (sem : CmdSem σ) (is : List Instruction) (rs : RunState σ)
+    (o : Cfg σ ⊕ Final σ) (h : Step sem is (cfgOf rs) o) :
+    outOf (runStep sem is (labelTable is) noHalt rs) = some o := by
+  generalize hc : cfgOf rs = c at h
+  cases h with
+  | reachedEnd hi =>
+    subst hc
+    simp only [cfgOf] at hi
+    unfold runStep
+    simp [noHalt, hi, outOf, finalOf, cfgOf]
+  | noCommand i hi hinv =>
+    subst hc
+    simp only [cfgOf] at hi
+    unfold runStep
+    simp [noHalt, hi, runInstruction_noInvocation _ _ _ _ _ hinv, outOf, cfgOf]
+  | unknownCommand i name args hi hinv hsem =>
+    subst hc
+    simp only [cfgOf] at hi hsem
+    unfold runStep
+    simp [noHalt, hi, runInstruction_invocation _ _ _ _ _ _ _ hinv, hsem, outOf, finalOf, cfgOf]
+  | «continue» i name args v vars' st' hi hinv hsem =>
+    subst hc
+    simp only [cfgOf] at hi hsem
+    unfold runStep
+    simp [noHalt, hi, runInstruction_invocation _ _ _ _ _ _ _ hinv, hsem, outOf, finalOf, cfgOf]
+  | gotoLabel i name args v l k vars' st' hi hinv hsem hl =>
+    subst hc
+    simp only [cfgOf] at hi hsem
+    unfold runStep
+    simp [noHalt, hi, runInstruction_invocation _ _ _ _ _ _ _ hinv, hsem, outOf, finalOf, cfgOf,
+      (lookup_labelTable_some is l k).2 hl]
+  | gotoUnknownLabel i name args v l vars' st' hi hinv hsem hl =>
+    subst hc
+    simp only [cfgOf] at hi hsem
+    unfold runStep
+    simp [noHalt, hi, runInstruction_invocation _ _ _ _ _ _ _ hinv, hsem, outOf, finalOf, cfgOf,
+      (lookup_labelTable_none is l).2 hl]
+  | gotoLine i name args v n vars' st' hi hinv hsem =>
+    subst hc
+    simp only [cfgOf] at hi hsem
+    unfold runStep
+    simp [noHalt, hi, runInstruction_invocation _ _ _ _ _ _ _ hinv, hsem, outOf, finalOf, cfgOf]
+  | exitOk i name args v vars' st' hi hinv hsem hcode =>
+    subst hc
+    simp only [cfgOf] at hi hsem
+    unfold runStep
+    cases hv : v.bind parseI32 with
+    | none =>
+      simp [noHalt, hi, runInstruction_invocation _ _ _ _ _ _ _ hinv, hsem, outOf, finalOf, cfgOf, hv]
+    | some code =>
+      have := hcode code hv
+      subst this
+      simp [noHalt, hi, runInstruction_invocation _ _ _ _ _ _ _ hinv, hsem, outOf, finalOf, cfgOf, hv]
+  | exitCode i name args v code vars' st' hi hinv hsem hv hne =>
+    subst hc
+    simp only [cfgOf] at hi hsem
+    unfold runStep
+    simp [noHalt, hi, runInstruction_invocation _ _ _ _ _ _ _ hinv, hsem, outOf, finalOf, cfgOf, hv, hne]
+  | crash i name args e vars' st' hi hinv hsem =>
+    subst hc
+    simp only [cfgOf] at hi hsem
+    unfold runStep
+    simp [noHalt, hi, runInstruction_invocation _ _ _ _ _ _ _ hinv, hsem, outOf, finalOf, cfgOf]
+  | errorNoHandler i name args e vars' st' hi hinv hsem hoe =>
+    subst hc
+    simp only [cfgOf] at hi hsem
+    simp [errorReport] at hoe
+    unfold runStep
+    simp [noHalt, hi, runInstruction_invocation _ _ _ _ _ _ _ hinv, hsem, outOf, finalOf, cfgOf,
+      runOnError, hoe]
+  | errorHandled i name args e vars' st' r vars'' st'' hi hinv hsem hoe hne hnc =>
+    subst hc
+    simp only [cfgOf] at hi hsem
+    simp [errorReport] at hoe
+    unfold runStep
+    cases r with
+    | «exit» w => exact absurd rfl (hne w)
+    | crash m => exact absurd rfl (hnc m)
+    | _ =>
+      simp [noHalt, hi, runInstruction_invocation _ _ _ _ _ _ _ hinv, hsem, outOf, finalOf, cfgOf,
+        runOnError, hoe]
+  | errorHandlerExits i name args e vars' st' w vars'' st'' hi hinv hsem hoe =>
+    subst hc
+    simp only [cfgOf] at hi hsem
+    simp [errorReport] at hoe
+    unfold runStep
+    simp [noHalt, hi, runInstruction_invocation _ _ _ _ _ _ _ hinv, hsem, outOf, finalOf, cfgOf,
+      runOnError, hoe]
+  | errorHandlerCrashes i name args e vars' st' m vars'' st'' hi hinv hsem hoe =>
+    subst hc
+    simp only [cfgOf] at hi hsem
+    simp [errorReport] at hoe
+    unfold runStep
+    simp [noHalt, hi, runInstruction_invocation _ _ _ _ _ _ _ hinv, hsem, outOf, finalOf, cfgOf,
+      runOnError, hoe]
+
+
+theorem step_iff_runStep (sem : CmdSem σ) (is : List Instruction) (rs : RunState σ)
+    (o : Cfg σ ⊕ Final σ) :
+    Step sem is (cfgOf rs) o ↔ outOf (runStep sem is (labelTable is) noHalt rs) = some o :=
+  ⟨runStep_complete sem is rs o, runStep_sound sem is rs o⟩
+
+theorem outOf_eq_inl (x : RunState σ ⊕ (RunState σ × RunEnd)) (c' : Cfg σ)
+    (h : outOf x = some (.inl c')) : ∃ rs1, x = .inl rs1 ∧ cfgOf rs1 = c' := by
+  cases x with
+  | inl rs1 => exact ⟨rs1, rfl, by simpa [outOf] using h⟩
+  | inr r => obtain ⟨rs', e⟩ := r; simp [outOf] at h
+
+theorem outOf_eq_inr (x : RunState σ ⊕ (RunState σ × RunEnd)) (f : Final σ)
+    (h : outOf x = some (.inr f)) : ∃ rs' e, x = .inr (rs', e) ∧ finalOf rs' e = some f := by
+  cases x with
+  | inl rs1 => simp [outOf] at h
+  | inr r => obtain ⟨rs', e⟩ := r; exact ⟨rs', e, rfl, by simpa [outOf] using h⟩
+
+/-- the abstract machine is deterministic (one step) -/
+theorem step_functional (sem : CmdSem σ) (is : List Instruction) (c : Cfg σ)
+    (o₁ o₂ : Cfg σ ⊕ Final σ) (h₁ : Step sem is c o₁) (h₂ : Step sem is c o₂) : o₁ = o₂ := by
+  have e : c = cfgOf (⟨c.pc, 0, c.vars, c.st⟩ : RunState σ) := rfl
+  rw [e] at h₁ h₂
+  have a := runStep_complete sem is _ _ h₁
+  have b := runStep_complete sem is _ _ h₂
+  rw [a] at b
+  exact Option.some.inj b
+
+theorem reaches_functional (sem : CmdSem σ) (is : List Instruction) (c : Cfg σ)
+    (f₁ f₂ : Final σ) (h₁ : Reaches sem is c f₁) (h₂ : Reaches sem is c f₂) : f₁ = f₂ := by
+  induction h₁ with
+  | done c f s₁ =>
+    cases h₂ with
+    | done _ _ s₂ => exact Sum.inr.inj (step_functional sem is c _ _ s₁ s₂)
+    | step _ c' _ s₂ _ => exact absurd (step_functional sem is c _ _ s₁ s₂) (by simp)
+  | step c c' f s₁ _ ih =>
+    cases h₂ with
+    | done _ _ s₂ => exact absurd (step_functional sem is c _ _ s₁ s₂) (by simp)
+    | step _ c'' _ s₂ r₂ =>
+      have : c' = c'' := Sum.inl.inj (step_functional sem is c _ _ s₁ s₂)
+      subst this
+      exact ih r₂
+
+theorem runLoop_zero (sem : CmdSem σ) (is : List Instruction) (labels : List (Str × Nat))
+    (halt : Nat → σ → Bool) (rs : RunState σ) :
+    runLoop sem is labels halt 0 rs = (rs, .outOfFuel) := rfl
+
+theorem runLoop_succ (sem : CmdSem σ) (is : List Instruction) (labels : List (Str × Nat))
+    (halt : Nat → σ → Bool) (fuel : Nat) (rs : RunState σ) :
+    runLoop sem is labels halt (fuel + 1) rs =
+      match runStep sem is labels halt rs with
+      | .inl rs' => runLoop sem is labels halt fuel rs'
+      | .inr r => r := rfl
+
+theorem runLoop_sound (sem : CmdSem σ) (is : List Instruction) (fuel : Nat) :
+    ∀ (rs rs' : RunState σ) (e : RunEnd) (f : Final σ),
+      runLoop sem is (labelTable is) noHalt fuel rs = (rs', e) → finalOf rs' e = some f →
+      Reaches sem is (cfgOf rs) f := by
+  induction fuel with
+  | zero =>
+    intro rs rs' e f h hf
+    rw [runLoop_zero] at h
+    obtain ⟨rfl, rfl⟩ := Prod.mk.inj h
+    simp [finalOf] at hf
+  | succ fuel ih =>
+    intro rs rs' e f h hf
+    rw [runLoop_succ] at h
+    cases hs : runStep sem is (labelTable is) noHalt rs with
+    | inl rs1 =>
+      rw [hs] at h
+      refine Reaches.step _ (cfgOf rs1) _ (runStep_sound sem is rs _ ?_) (ih rs1 rs' e f h hf)
+      rw [hs]; rfl
+    | inr r =>
+      rw [hs] at h
+      subst h
+      refine Reaches.done _ _ (runStep_sound sem is rs _ ?_)
+      rw [hs]; simp [outOf, hf]
+
+theorem runLoop_complete (sem : CmdSem σ) (is : List Instruction) (c : Cfg σ) (f : Final σ)
+    (h : Reaches sem is c f) :
+    ∀ rs : RunState σ, cfgOf rs = c →
+      ∃ fuel rs' e, runLoop sem is (labelTable is) noHalt fuel rs = (rs', e) ∧
+        finalOf rs' e = some f := by
+  induction h with
+  | done c f s =>
+    intro rs hc
+    subst hc
+    obtain ⟨rs', e, hx, hf⟩ := outOf_eq_inr _ _ (runStep_complete sem is rs _ s)
+    exact ⟨1, rs', e, by rw [runLoop_succ, hx], hf⟩
+  | step c c' f s _ ih =>
+    intro rs hc
+    subst hc
+    obtain ⟨rs1, hx, hc'⟩ := outOf_eq_inl _ _ (runStep_complete sem is rs _ s)
+    obtain ⟨fuel, rs', e, hrun, hf⟩ := ih rs1 hc'
+    exact ⟨fuel + 1, rs', e, by rw [runLoop_succ, hx]; exact hrun, hf⟩
+
+theorem runLoop_fuel_mono (sem : CmdSem σ) (is : List Instruction)
+    (labels : List (Str × Nat)) (halt : Nat → σ → Bool) (fuel extra : Nat) :
+    ∀ (rs rs' : RunState σ) (e : RunEnd),
+      runLoop sem is labels halt fuel rs = (rs', e) → e ≠ .outOfFuel →
+      runLoop sem is labels halt (fuel + extra) rs = (rs', e) := by
+  induction fuel with
+  | zero =>
+    intro rs rs' e h he
+    rw [runLoop_zero] at h
+    exact absurd (Prod.mk.inj h).2.symm he
+  | succ fuel ih =>
+    intro rs rs' e h he
+    have hadd : fuel + 1 + extra = (fuel + extra) + 1 := by omega
+    rw [hadd, runLoop_succ]
+    rw [runLoop_succ] at h
+    cases hs : runStep sem is labels halt rs with
+    | inl rs1 => rw [hs] at h; exact ih rs1 rs' e h he
+    | inr r => rw [hs] at h; exact h
+
+/-! ### halt flag (C13) -/
+
+theorem runStep_halt_true (sem : CmdSem σ) (is : List Instruction)
+    (labels : List (Str × Nat)) (halt : Nat → σ → Bool) (rs : RunState σ)
+    (h : halt rs.polls rs.st = true) :
+    runStep sem is labels halt rs = .inr (rs, .halted) := by
+  unfold runStep
+  simp [h]
+
+theorem runStep_halt_false (sem : CmdSem σ) (is : List Instruction)
+    (labels : List (Str × Nat)) (halt : Nat → σ → Bool) (rs : RunState σ)
+    (h : halt rs.polls rs.st = false) :
+    runStep sem is labels halt rs = runStep sem is labels noHalt rs := by
+  unfold runStep
+  rw [h]
+  rfl
+
+theorem runStep_inl_not_halt (sem : CmdSem σ) (is : List Instruction)
+    (labels : List (Str × Nat)) (halt : Nat → σ → Bool) (rs rs' : RunState σ)
+    (h : runStep sem is labels halt rs = .inl rs') : halt rs.polls rs.st = false := by
+  cases hh : halt rs.polls rs.st with
+  | false => rfl
+  | true => rw [runStep_halt_true sem is labels halt rs hh] at h; simp at h
+
+theorem runStep_inl_polls (sem : CmdSem σ) (is : List Instruction)
+    (labels : List (Str × Nat)) (halt : Nat → σ → Bool) (rs rs' : RunState σ)
+    (h : runStep sem is labels halt rs = .inl rs') : rs'.polls = rs.polls + 1 := by
+  unfold runStep at h
+  repeat' split at h
+  all_goals try (dsimp only at h; split at h)
+  all_goals first
+    | (injection h with h; subst h; rfl)
+    | (simp at h; done)
+
+theorem runStep_inr_ne_outOfFuel (sem : CmdSem σ) (is : List Instruction)
+    (labels : List (Str × Nat)) (halt : Nat → σ → Bool) (rs rs' : RunState σ) (e : RunEnd)
+    (h : runStep sem is labels halt rs = .inr (rs', e)) : e ≠ .outOfFuel := by
+  unfold runStep at h
+  repeat' split at h
+  all_goals try (dsimp only at h; split at h)
+  all_goals first
+    | (simp at h; done)
+    | (injection h with h; injection h with _ h; subst h; simp)
+
+theorem runLoop_halt_terminates (sem : CmdSem σ) (is : List Instruction)
+    (labels : List (Str × Nat)) (halt : Nat → σ → Bool) (K : Nat)
+    (hK : ∀ k s, K ≤ k → halt k s = true) (fuel : Nat) :
+    ∀ rs : RunState σ, K + 1 - rs.polls ≤ fuel → 0 < fuel →
+      (runLoop sem is labels halt fuel rs).2 ≠ .outOfFuel := by
+  induction fuel with
+  | zero => intro rs _ hpos; omega
+  | succ fuel ih =>
+    intro rs hfuel _
+    rw [runLoop_succ]
+    cases hs : runStep sem is labels halt rs with
+    | inl rs1 =>
+      have hp := runStep_inl_polls sem is labels halt rs rs1 hs
+      have hh := runStep_inl_not_halt sem is labels halt rs rs1 hs
+      have hlt : rs.polls < K := by
+        apply Nat.lt_of_not_le
+        intro hle
+        rw [hK _ _ hle] at hh
+        simp at hh
+      exact ih rs1 (by omega) (by omega)
+    | inr r =>
+      obtain ⟨rs', e⟩ := r
+      exact runStep_inr_ne_outOfFuel sem is labels halt rs rs' e hs
 
 end Duck
